@@ -437,7 +437,53 @@ var Faults = []Fault{
 		if !ok {
 			return false
 		}
-		s.sel().Dirs = append(s.sel().Dirs, m.Dir{Name: c.R.Pick("skip", "include")})
+		// a directive of the schema allowed on fields, with all of its required arguments but one (which one is random:
+		// with several required arguments an earlier one is supplied and a later one missing, or the other way round)
+		var cands []*m.Item
+		for _, n := range c.Mg.DirectiveNames() {
+			d := c.Mg.Directives[n]
+			onField, req := false, 0
+			for _, l := range d.Locations {
+				if l == "FIELD" {
+					onField = true
+				}
+			}
+			for _, a := range d.Args {
+				if a.Type.NonNull && a.Default == nil {
+					req++
+				}
+			}
+			if onField && req > 0 && n != "skip" && n != "include" {
+				cands = append(cands, d)
+			}
+		}
+		if len(cands) == 0 || c.R.Chance(1, 3) {
+			s.sel().Dirs = append(s.sel().Dirs, m.Dir{Name: c.R.Pick("skip", "include")})
+			return true
+		}
+		d := cands[c.R.Intn(len(cands))]
+		for _, x := range s.sel().Dirs {
+			if x.Name == d.Name && !d.Repeatable {
+				return false
+			}
+		}
+		var req []*m.ArgDef
+		for _, a := range d.Args {
+			if a.Type.NonNull && a.Default == nil {
+				req = append(req, a)
+			}
+		}
+		miss := req[c.R.Intn(len(req))]
+		use := m.Dir{Name: d.Name}
+		for _, a := range d.Args {
+			if a == miss {
+				continue
+			}
+			if (a.Type.NonNull && a.Default == nil) || c.R.Bool() {
+				use.Args = append(use.Args, m.Arg{Name: a.Name, Value: tsys.GenValue(c.R, c.g.Lookup, a.Type, 1, false)})
+			}
+		}
+		s.sel().Dirs = append(s.sel().Dirs, use)
 		return true
 	}},
 	{"wrong-kind-literal", "ValuesOfCorrectType", func(c *FCtx) bool {
@@ -1023,6 +1069,48 @@ var Faults = []Fault{
 		}
 		*s.list = append(*s.list, &m.Sel{Kind: m.SInline, TypeCond: tc, Sel: body})
 		return true
+	}},
+	{"impossible-second-spread", "PossibleFragmentSpreads", func(c *FCtx) bool {
+		// a fragment the document already spreads somewhere is spread AGAIN where its type can never apply (the first
+		// spread being fine says nothing about the second)
+		spread := map[string]bool{}
+		for _, st := range c.sites() {
+			if st.sel().Kind == m.SSpread {
+				spread[st.sel().Name] = true
+			}
+		}
+		for _, fi := range c.R.Perm(len(c.frags())) {
+			fr := c.frags()[fi]
+			if !spread[fr.Name] {
+				continue
+			}
+			ft := c.Mg.Types[fr.TypeCond]
+			if ft == nil {
+				continue
+			}
+			mine := map[string]bool{}
+			for _, n := range c.Mg.PossibleTypes(fr.TypeCond) {
+				mine[n] = true
+			}
+			mine[fr.TypeCond] = true
+			s, ok := c.pick(c.sites(), func(s selSite) bool {
+				if s.parent == nil || !s.parent.IsComposite() || s.def == fr || s.parent.Name == fr.TypeCond {
+					return false
+				}
+				for _, n := range append(c.Mg.PossibleTypes(s.parent.Name), s.parent.Name) {
+					if mine[n] {
+						return false
+					}
+				}
+				return true
+			})
+			if !ok {
+				continue
+			}
+			*s.list = append(*s.list, &m.Sel{Kind: m.SSpread, Name: fr.Name})
+			return true
+		}
+		return false
 	}},
 	{"duplicate-operation-name", "UniqueOperationNames", func(c *FCtx) bool {
 		ops := c.ops()
